@@ -164,7 +164,7 @@ func (ctx *parseContext) expandSingleValueMacro(arg string) (string, error) {
 		}
 
 		var value string
-		if ctx.macros[macroName] != nil {
+		if len(ctx.macros[macroName]) != 0 {
 			// Macros have at least one argument.
 			value = ctx.macros[macroName][0]
 		}
